@@ -55,6 +55,23 @@ fn t_read(r: &Option<Option<ObjectFile>>) -> Tree {
 }
 fn t_done<T>(r: &Option<T>) -> Tree { if r.is_some() { ok(vec![]) } else { panic() } }
 
+
+/// `ctx.fail` keeps the first 200 failures of a run; so that every (property, class) is
+/// represented there, record at most 12 per class and only count the others.
+fn fail(ctx: &Ctx, property: &str, class: &str, what: String, replay: String) {
+    use std::collections::HashMap;
+    use std::sync::Mutex;
+    static SEEN: Mutex<Option<HashMap<String, u32>>> = Mutex::new(None);
+    let n = {
+        let mut g = SEEN.lock().unwrap();
+        let m = g.get_or_insert_with(HashMap::new);
+        let e = m.entry(format!("{property}.{class}")).or_insert(0);
+        *e += 1;
+        *e
+    };
+    if n <= 12 { ctx.fail(property, class, what, replay); } else { ctx.stat(&format!("fail.{property}.{class}"), 1); }
+}
+
 // ------------------------------------------------------------------------------------------
 // program generator
 
@@ -170,34 +187,34 @@ fn check_valid(ctx: &Ctx, shard: usize, o: &ObjectFile, what: &str) {
     ctx.case_to(shard, "objtext.inv", &t, &I(1));
     // ---- binary
     match catch(|| BinaryFormat::serialize(o)) {
-        None => ctx.fail("C17", "bin_write_panics", format!("BinaryFormat::serialize panics on a {what} object"), format!("objbin.ser\t{tord}")),
+        None => fail(ctx, "C17", "bin_write_panics", format!("BinaryFormat::serialize panics on a {what} object"), format!("objbin.ser\t{tord}")),
         Some(bs) => {
             ctx.case_to(shard, "objbin.ser", &tord, &bytes(&bs));
             let back = catch(|| BinaryFormat::deserialize(&bs));
             ctx.case_to(shard, "objbin.deser", &bytes(&bs), &t_read(&back));
             let replay = format!("objbin.ser\t{tord}");
             match back {
-                None => ctx.fail("C17", "bin_read_panics", format!("BinaryFormat::deserialize panics on the serialization of a {what} object"), replay),
-                Some(None) => ctx.fail("C17", "bin_roundtrip_rejected", format!("BinaryFormat::deserialize rejects the serialization of a {what} object"), replay),
+                None => fail(ctx, "C17", "bin_read_panics", format!("BinaryFormat::deserialize panics on the serialization of a {what} object"), replay),
+                Some(None) => fail(ctx, "C17", "bin_roundtrip_rejected", format!("BinaryFormat::deserialize rejects the serialization of a {what} object"), replay),
                 Some(Some(o2)) => if o2 != *o {
-                    ctx.fail("C17", "bin_roundtrip_differs", format!("binary round trip of a {what} object gives a different object: {}", diff(o, &o2)), replay)
+                    fail(ctx, "C17", "bin_roundtrip_differs", format!("binary round trip of a {what} object gives a different object: {}", diff(o, &o2)), replay)
                 },
             }
         }
     }
     // ---- text
     match catch(|| TextFormat::serialize(o)) {
-        None => ctx.fail("C18", "text_write_panics", format!("TextFormat::serialize panics on a {what} object"), format!("objtext.ser\t{t}")),
+        None => fail(ctx, "C18", "text_write_panics", format!("TextFormat::serialize panics on a {what} object"), format!("objtext.ser\t{t}")),
         Some(s) => {
             ctx.case_to(shard, "objtext.ser", &t, &chars(&s));
             let back = catch(|| TextFormat::deserialize(&s));
             ctx.case_to(shard, "objtext.deser", &chars(&s), &t_read(&back));
             let replay = format!("objtext.ser\t{t}");
             match back {
-                None => ctx.fail("C18", "text_read_panics", format!("TextFormat::deserialize panics on the serialization of a {what} object"), replay),
-                Some(None) => ctx.fail("C18", "text_roundtrip_rejected", format!("TextFormat::deserialize rejects the serialization of a {what} object"), replay),
+                None => fail(ctx, "C18", "text_read_panics", format!("TextFormat::deserialize panics on the serialization of a {what} object"), replay),
+                Some(None) => fail(ctx, "C18", "text_roundtrip_rejected", format!("TextFormat::deserialize rejects the serialization of a {what} object"), replay),
                 Some(Some(o2)) => if o2 != *o {
-                    ctx.fail("C18", "text_roundtrip_differs", format!("text round trip of a {what} object gives a different object: {}", diff(o, &o2)), replay)
+                    fail(ctx, "C18", "text_roundtrip_differs", format!("text round trip of a {what} object gives a different object: {}", diff(o, &o2)), replay)
                 },
             }
         }
@@ -489,12 +506,12 @@ fn after_read(ctx: &Ctx, shard: usize, o: &ObjectFile, partners: &[ObjectFile], 
     let bs = catch(|| BinaryFormat::serialize(o));
     match &bs {
         Some(bs) => ctx.case_to(shard, "objbin.ser", &tord, &bytes(bs)),
-        None => ctx.fail("C19", "reserialize_panics", format!("BinaryFormat::serialize panics on an object read from {origin}"), format!("objbin.ser\t{tord}")),
+        None => fail(ctx, "C19", "reserialize_panics", format!("BinaryFormat::serialize panics on an object read from {origin}"), format!("objbin.ser\t{tord}")),
     }
     let ts = catch(|| TextFormat::serialize(o));
     match &ts {
         Some(s) => ctx.case_to(shard, "objtext.ser", &t, &chars(s)),
-        None => ctx.fail("C19", "reserialize_panics", format!("TextFormat::serialize panics on an object read from {origin}"), format!("objtext.ser\t{t}")),
+        None => fail(ctx, "C19", "reserialize_panics", format!("TextFormat::serialize panics on an object read from {origin}"), format!("objtext.ser\t{t}")),
     }
     // link with assembled files, both ways
     let all = origin == "boundary";
@@ -507,7 +524,7 @@ fn after_read(ctx: &Ctx, shard: usize, o: &ObjectFile, partners: &[ObjectFile], 
             let inp = L(vec![tx.clone(), ty.clone()]);
             ctx.case_to(shard, "objpipe.link", &inp, &t_done(&res));
             match res {
-                None => ctx.fail("C19", "link_panics", format!("ObjectFile::link panics ({}) with an object read from {origin}", crate::LAST_PANIC.with(|p| p.borrow().clone())), format!("objpipe.link\t{inp}")),
+                None => fail(ctx, "C19", "link_panics", format!("ObjectFile::link panics ({}) with an object read from {origin}", crate::LAST_PANIC.with(|p| p.borrow().clone())), format!("objpipe.link\t{inp}")),
                 Some(true) => ctx.stat("pipeline.link_ok", 1),
                 Some(false) => ctx.stat("pipeline.link_err", 1),
             }
@@ -517,7 +534,7 @@ fn after_read(ctx: &Ctx, shard: usize, o: &ObjectFile, partners: &[ObjectFile], 
     let res = load(o);
     ctx.case_to(shard, "objpipe.load", &t, &t_done(&res));
     match res {
-        None => ctx.fail("C19", "load_panics", format!("Simulator::load_obj_file panics ({}) on an object read from {origin}", crate::LAST_PANIC.with(|p| p.borrow().clone())), format!("objpipe.load\t{t}")),
+        None => fail(ctx, "C19", "load_panics", format!("Simulator::load_obj_file panics ({}) on an object read from {origin}", crate::LAST_PANIC.with(|p| p.borrow().clone())), format!("objpipe.load\t{t}")),
         Some(true) => ctx.stat("pipeline.load_ok", 1),
         Some(false) => ctx.stat("pipeline.load_err", 1),
     }
@@ -528,7 +545,7 @@ fn read_bin(ctx: &Ctx, shard: usize, bs: &[u8], partners: &[ObjectFile], r: &mut
     let inp = bytes(bs);
     ctx.case_to(shard, "objbin.deser", &inp, &t_read(&res));
     match res {
-        None => ctx.fail("C19", "bin_read_panics", format!("BinaryFormat::deserialize panics ({}) on {origin}", crate::LAST_PANIC.with(|p| p.borrow().clone())), format!("objbin.deser\t{inp}")),
+        None => fail(ctx, "C19", "bin_read_panics", format!("BinaryFormat::deserialize panics ({}) on {origin}", crate::LAST_PANIC.with(|p| p.borrow().clone())), format!("objbin.deser\t{inp}")),
         Some(None) => ctx.stat(&format!("read.bin.{origin}.rejected"), 1),
         Some(Some(o)) => { ctx.stat(&format!("read.bin.{origin}.accepted"), 1); after_read(ctx, shard, &o, partners, r, origin); }
     }
@@ -538,7 +555,7 @@ fn read_text(ctx: &Ctx, shard: usize, s: &str, partners: &[ObjectFile], r: &mut 
     let inp = chars(s);
     ctx.case_to(shard, "objtext.deser", &inp, &t_read(&res));
     match res {
-        None => ctx.fail("C19", "text_read_panics", format!("TextFormat::deserialize panics ({}) on {origin}", crate::LAST_PANIC.with(|p| p.borrow().clone())), format!("objtext.deser\t{inp}")),
+        None => fail(ctx, "C19", "text_read_panics", format!("TextFormat::deserialize panics ({}) on {origin}", crate::LAST_PANIC.with(|p| p.borrow().clone())), format!("objtext.deser\t{inp}")),
         Some(None) => ctx.stat(&format!("read.text.{origin}.rejected"), 1),
         Some(Some(o)) => { ctx.stat(&format!("read.text.{origin}.accepted"), 1); after_read(ctx, shard, &o, partners, r, origin); }
     }
